@@ -17,6 +17,7 @@ def run(ctx: common.Ctx):
     doc_checks.run_c06_stale_views(ctx)
     doc_checks.run_c06_glued_removals(ctx)
     doc_checks.run_c06_glued_list_removals(ctx)
+    doc_checks.run_c06_constructed_customs(ctx)
     tree_check.correspondence(ctx, 'C06')
 
 
@@ -27,6 +28,7 @@ def search(ctx: common.Ctx):
     doc_checks.run_c06_stale_views(ctx)
     doc_checks.run_c06_glued_removals(ctx)
     doc_checks.run_c06_glued_list_removals(ctx)
+    doc_checks.run_c06_constructed_customs(ctx)
 
 
 def replay(ctx, path):
